@@ -9,13 +9,7 @@
 //@pin file=lrlex/src/lib/parser.rs fn=add_duplicate_occurrence sha=b02837fbe7096836
 //@pin file=lrlex/src/lib/parser.rs fn=get_start_state_by_name sha=cd400f97ff97934b
 //@pin file=lrlex/src/lib/parser.rs fn=matches_whitespace sha=b207bc6cc0894cff
-//@pin file=lrlex/src/lib/lexer.rs fn=from_rules sha=e07172e5756578bd
-//@pin file=lrlex/src/lib/lexer.rs fn=get_rule nth=1 sha=c1efce67e7f9a4a3
-//@pin file=lrlex/src/lib/lexer.rs fn=get_rule_by_id nth=1 sha=b5ffdbe516d18ab3
-//@pin file=lrlex/src/lib/lexer.rs fn=get_rule_by_name nth=1 sha=514a0aed7498d181
 //@pin file=lrlex/src/lib/lexer.rs fn=set_rule_ids nth=1 sha=2c86bc8838716c67
-//@pin file=lrlex/src/lib/lexer.rs fn=iter_rules nth=1 sha=2715b1d06a0ec6c2
-//@pin file=lrlex/src/lib/lexer.rs fn=iter_start_states nth=1 sha=bffaf2d96d26cded
 //@pin file=lrlex/src/lib/lexer.rs fn=state_matches sha=3a6847763eb28663
 //@pin file=lrlex/src/lib/lexer.rs fn=lexer sha=87697c1513a9020e
 //@use prelude/tail.rs
